@@ -320,7 +320,7 @@ class Scope:
 
 # ----------------------------------------------------------------------------- literals
 SMALL = [0, 1, 2, 3, 5, 7, 10, -1, -2, -7, 42, 100, 255, 256, 1000]
-BOUND = [INT64_MAX, INT64_MAX - 1, INT64_MIN + 1, 2 ** 31 - 1, 2 ** 31, -(2 ** 31), -(2 ** 31) - 1, 2 ** 32, 2 ** 32 + 1,
+BOUND = [INT64_MAX, INT64_MAX - 1, INT64_MIN, INT64_MIN + 1, 2 ** 31 - 1, 2 ** 31, -(2 ** 31), -(2 ** 31) - 1, 2 ** 32, 2 ** 32 + 1,
          -(2 ** 32) - 1, 2 ** 62, -(2 ** 62), 4611686018427387903, 3037000500, 3037000499]
 STR_ALPHA = "abcdefgXYZ0123456789 _-+*/=<>()[]{}.,:;!?@#$%^&|~'"
 
